@@ -29,6 +29,10 @@ type Header struct {
 	Epoch   uint64      `json:"epoch"`
 	BadSig  bool        `json:"badsig,omitempty"`  // forged: fails every type-level check
 	Invalid bool        `json:"invalid,omitempty"` // fails Validate
+	// InvalidSoft / DecodeSoft: Validate / UnmarshalBinary fail with a *header.VerifyError that has SoftFailure set (a
+	// header type may report its own failures that way; only the verifier's soft failures mean "ignore")
+	InvalidSoft bool `json:"invalidsoft,omitempty"`
+	DecodeSoft  bool `json:"decodesoft,omitempty"`
 	Salt    uint64      `json:"salt,omitempty"`    // distinguishes forks
 	// TypeRes scripts the result of the type-level Verify when this header is the
 	// *untrusted* argument: "" (default rule), "nil", "plain", "bareHard", "bareSoft",
@@ -78,6 +82,9 @@ func (h *Header) Hash() header.Hash {
 }
 
 func (h *Header) Validate() error {
+	if h.InvalidSoft {
+		return fmt.Errorf("vh: invalid: %w", &header.VerifyError{Reason: ErrInvalid, SoftFailure: true})
+	}
 	if h.Invalid {
 		return ErrInvalid
 	}
@@ -94,8 +101,12 @@ func (h *Header) UnmarshalBinary(b []byte) error {
 	if tmp.Chain == "" && tmp.H == 0 {
 		return errors.New("vh: not a header")
 	}
+	if tmp.DecodeSoft {
+		return &header.VerifyError{Reason: errors.New("vh: scripted decode failure"), SoftFailure: true}
+	}
 	h.Chain, h.H, h.T, h.Prev, h.Epoch = tmp.Chain, tmp.H, tmp.T, tmp.Prev, tmp.Epoch
 	h.BadSig, h.Invalid, h.Salt, h.TypeRes, h.DecodePanic = tmp.BadSig, tmp.Invalid, tmp.Salt, tmp.TypeRes, tmp.DecodePanic
+	h.InvalidSoft = tmp.InvalidSoft
 	if h.DecodePanic {
 		panic("vh: scripted decode panic")
 	}
@@ -249,5 +260,5 @@ func (c *Chain) Fork(from uint64, salt uint64) *Chain {
 // Clone returns a field copy with fresh hash cache.
 func (h *Header) Clone() *Header {
 	return &Header{Chain: h.Chain, H: h.H, T: h.T, Prev: h.Prev, Epoch: h.Epoch, BadSig: h.BadSig,
-		Invalid: h.Invalid, Salt: h.Salt, TypeRes: h.TypeRes, DecodePanic: h.DecodePanic}
+		Invalid: h.Invalid, Salt: h.Salt, TypeRes: h.TypeRes, DecodePanic: h.DecodePanic, InvalidSoft: h.InvalidSoft}
 }
